@@ -3,8 +3,8 @@ NOTES = ("All checks are bounded exhaustive explorations of the real implementat
          "finite input-space products (E3), a cooperative scheduler with preemption bounding for the key store (E4) and a "
          "process-level twin/restart driver (E5). Exit codes: 0 held / only known findings, 1 VIOLATION, 2 harness or build error.")
 ENGINES = [
-    {"name": "E1 world", "path": "engine/world", "serves_properties": ["C01","C02","C03","C04","C05","C11","C13"], "kind_free_text": "real app.App under a deterministic driver; BaseApp.VerifFork via build overlay"},
-    {"name": "E2 explore", "path": "engine/explore", "serves_properties": ["C01","C02","C03","C04","C05","C11","C13"], "kind_free_text": "explicit-state depth/deviation-bounded DFS with canonical store hashing, 16 workers, sequential-replay confirmation"},
+    {"name": "E1 world", "path": "engine/world", "serves_properties": ["C01","C02","C03","C04","C05","C06","C11","C12","C13"], "kind_free_text": "real app.App under a deterministic driver; BaseApp.VerifFork via build overlay"},
+    {"name": "E2 explore", "path": "engine/explore", "serves_properties": ["C01","C02","C03","C04","C05","C06","C11","C12","C13"], "kind_free_text": "explicit-state depth/deviation-bounded DFS with canonical store hashing, 16 workers, sequential-replay confirmation"},
 ]
 NOT_CLAIMED = {}
 MC = "model_checking"
@@ -30,3 +30,10 @@ claim("C05", MC, "explicit-state DFS with restart and export/import placed after
 claim("C11", MC, "explicit-state DFS with did field / document id / payload chosen independently; state invariant doc.id == key", "DESIGN.md §3 C11",
       "DID graph whose alphabet chooses the did field, the document id and the signed payload independently (direct, authz-Exec wrapped, and Replay(did:=other) of observed accepted messages); invariant in every distinct state: every active entry's document id equals its key and Query/DID(d).document.id == d.",
       "", "E1+E2")
+
+claim("C06", MC, "explicit-state DFS over real PNFT handlers + reference ownership model", "DESIGN.md §3 C06",
+      "All sequences of the seven PNFT message types up to the completed bound over 3 accounts, colliding ids (d/dd, t/tt), former owners after hand-over, creators that are no longer owners, forged signers, authz Grant/Exec and an upper-case spelling of an owner address; a message succeeds only if its real signer (or authz granter) is the current owner; refused requests leave the pnft store byte-identical; denoms/tokens/owners equal the reference model in every state, also after export/import.",
+      "Mixed-case spellings: safety direction only. Plain key accounts; GenericAuthorization.", "E1+E2")
+claim("C12", MC, "explicit-state DFS + full query matrix per distinct state against the reference model", "DESIGN.md §3 C12",
+      "PNFT graph with the identifier alphabet widened to prefixes and the x/nft key delimiter (d, dd, d\\0x / t, tt, x\\0t); in every distinct state: PNFT(denom,id) over alphabet x alphabet, PNFTs, PNFTsByDenomOwner x accounts, Denom, Denoms under the full pagination matrix and DenomsByOwner x accounts are compared with the reference model; token metadata immutable; no orphan tokens.",
+      "Identifier alphabet of 3 denoms x 3 token ids.", "E1+E2")
